@@ -737,13 +737,19 @@ class Ext:
         if r is None:
             return None
         out = []
+        # a pure predicate searched over a fixed view is a function of (call site, view, captured values): the unknown answer
+        # is named after them, so that two evaluations of the same search on the same bytes agree (as is_ascii's does)
+        try:
+            tag = (e["fn"].split("::")[-1], self.I.span(e), repr(self.I.loops.seq_key(it.seq)), repr(it.pos.key()), repr(a[1].captures) if a[1].captures else "")
+        except Exception:
+            tag = None
         for s, k, v, _ in r:
             if k != "val":
                 out.append((s, k, v))
             elif kind == "bool":
-                out.append((s, "val", BoolV(flit(("b", self.I.fresh("pred"), True)))))
+                out.append((s, "val", BoolV(flit(("b", ("search",) + tag if tag else self.I.fresh("pred"), True)))))
             else:
-                p = self.I.fresh_int("pos", "usize")
+                p = IntV(Lin.atom(("sym", "pos:" + ":".join(tag), "usize")), "usize") if tag else self.I.fresh_int("pos", "usize")
                 for s2 in self.I.assume(s, f_and(flit(ge(p.l, it.pos)), flit(lt(p.l, n)))):
                     if kind == "index":
                         out.append((s2, "val", some(IntV(p.l - it.pos, "usize"))))
@@ -755,6 +761,14 @@ class Ext:
 
     def str_from_utf8(self, e, st, a):
         """Ok(the same bytes viewed as str) or Err(_): validity is not tracked"""
+        v = a[0]
+        if isinstance(v, RefV):
+            v = self.I.read_loc(st, v.key, v.path)
+        if isinstance(v, SliceV):
+            # validity is a function of the bytes viewed: one named unknown per view (as is_ascii)
+            key = ("is_utf8", v.base, v.start.key(), v.end.key())
+            return [(s, "val", StructV("std::result::Result", "Ok", {"0": a[0]})) for s in self.I.assume(st, flit(("b", key, True)))] + \
+                   [(s, "val", StructV("std::result::Result", "Err", {"0": Opaque("Utf8Error")})) for s in self.I.assume(st, flit(("b", key, False)))]
         return [(st, "val", StructV("std::result::Result", "Ok", {"0": a[0]})),
                 (st, "val", StructV("std::result::Result", "Err", {"0": Opaque("Utf8Error")}))]
 
